@@ -577,7 +577,7 @@ def run(tier):
     # ---- GEN: schedules from TLC (both cache variants); the kill / interleaving structure is what is replayed
     scheds = []
     for variant, cfg in (("data", "GEN_data.cfg"), ("quick", "GEN_quick.cfg")):
-        g = tlc.run("C18", "DbCacheGen", cfg, workers=1, deadlock=False, simulate=f"num={60 if tier == 'quick' else 600}", depth=60, heap="4g")
+        g = tlc.run("C18", "DbCacheGen", cfg, workers=1, deadlock=False, simulate=f"num={60 if tier == 'quick' else 400}", depth=60, heap="4g")
         for b in g.json_prints():
             scheds.append((variant, b))
     if len(scheds) < 40:
@@ -592,9 +592,9 @@ def run(tier):
     lens = {}
     for f in FILES:
         n = len(tmpl.valid[f])
-        pts = set(range(0, 40)) | {n - 1, n - 2, n // 2, n // 3} | {r.randrange(1, n) for _ in range(30 if tier == "quick" else 400)}
+        pts = set(range(0, 40)) | {n - 1, n - 2, n // 2, n // 3} | {r.randrange(1, n) for _ in range(30 if tier == "quick" else 300)}
         if tier == "thorough":
-            pts |= set(range(40, min(n, 2000)))
+            pts |= set(range(40, min(n, 700)))
         lens[f] = sorted(x for x in pts if 0 < x < n)
     for f in FILES:
         o = "quick" if f == "data" else "data"
@@ -604,12 +604,12 @@ def run(tier):
         for n in lens[f]:
             jobs.append((f"crash-{f}-prefix{n}", {f: ["partial", n], o: r.choice(["valid", "valid", "missing"])}, solo))
     # ---- kill points far into a run (the long tail of make_cache rounds): p1 killed at its k-th primitive, then p2
-    for i in range(20 if tier == "quick" else 300):
+    for i in range(20 if tier == "quick" else 200):
         k = r.choice([r.randrange(1, 60), r.randrange(60, 1500)])
         init = {"quick": r.choice(["missing", "valid", "empty"]), "data": r.choice(["missing", "valid", "stale"])}
         jobs.append((f"latekill-{i}", init, [{"p": "p1", "at": "step"}] * k + [{"p": "p1", "at": "KILL"}, {"p": "p2", "at": "step"}]))
     # ---- two processes racing through the damaged-cache handler: p1 k steps, p2 j steps, alternating
-    for i in range(30 if tier == "quick" else 400):
+    for i in range(30 if tier == "quick" else 300):
         a, b = r.randrange(1, 14), r.randrange(1, 14)
         init = {"quick": r.choice(["partial", "empty", "stale", "junk"]), "data": r.choice(["partial", "empty", "stale", "junk"])}
         sched = ([{"p": "p1", "at": "step"}] * a + [{"p": "p2", "at": "step"}] * b) * 6
